@@ -336,3 +336,26 @@ T('c16-twin-branch-order', 'C16', [(RA, """  if concrete_a == 'Any':
 
   if concrete_a == 'Singular':""")])
 T('c16-twin-rank-renumber', 'C16', [(RA, "  if isinstance(x, ClosedRecord):\n    return 9", "  if isinstance(x, ClosedRecord):\n    return 19")])
+
+# ---------------------------------------------------------------- C10
+M('c10-clickhouse-standard', 'C10', [(ET, """    if self.dialect.Name() in ["ClickHouse"]:
+      # ClickHouse treats backslash as an escape character inside '...'.
+      return '\\'%s\\'' % (
+          literal['the_string']
+          .replace('\\\\', '\\\\\\\\')
+          .replace("'", "\\\\'"))
+    if self.dialect.Name() in ["PostgreSQL", "Presto", "Trino", "SqLite"]:""",
+   """    if self.dialect.Name() in ["PostgreSQL", "Presto", "Trino", "SqLite", "ClickHouse"]:""")], 'C10-R1')
+M('c10-duckdb-no-backslash', 'C10', [(ET, "          literal['the_string']\n          .replace('\\\\', '\\\\\\\\')\n          .replace(\"'\", \"''\")\n          .replace('\\t', r'\\t')",
+                                      "          literal['the_string']\n          .replace(\"'\", \"''\")\n          .replace('\\t', r'\\t')")], 'C10-R1')
+M('c10-duckdb-wrong-order', 'C10', [(ET, "          .replace('\\\\', '\\\\\\\\')\n          .replace(\"'\", \"''\")\n          .replace('\\t', r'\\t')",
+                                     "          .replace(\"'\", \"\\\\'\")\n          .replace('\\\\', '\\\\\\\\')\n          .replace('\\t', r'\\t')")], 'C10-R1')
+M('c10-sqlite-json', 'C10', [(ET, '    if self.dialect.Name() in ["PostgreSQL", "Presto", "Trino", "SqLite"]:', '    if self.dialect.Name() in ["PostgreSQL", "Presto", "Trino"]:')], 'C10-R1')
+M('c10-bigquery-raw', 'C10', [(ET, "    return json.dumps(literal['the_string'], ensure_ascii=False)", "    return '\"%s\"' % literal['the_string']")], 'C10-R1')
+M('c10-flag-raw', 'C10', [(ET, "        return self.StrLiteral(\n            {'the_string': self.flag_values[flag]})", "        return \"'%s'\" % self.flag_values[flag]")], 'C10-R2')
+M('c10-flag-order', 'C10', [(U, "    flag_values.update(**programmatic_flag_values)\n    flag_values.update(**self.user_flags)", "    flag_values.update(**self.user_flags)\n    flag_values.update(**programmatic_flag_values)")], 'C10-R4')
+M('c10-unbounded-substitution', 'C10', [(U, "      if num_subs > 100:\n        raise rule_translate.RuleCompileException(", "      if False:\n        raise rule_translate.RuleCompileException(")], 'C10-R4')
+M('c10-sql-as-template', 'C10', [(U, "    formatted_sql = (\n        self.execution.flags_comment +\n        defines_and_exports +\n        FormatSql(sql))", "    formatted_sql = (\n        self.execution.flags_comment +\n        defines_and_exports + '%s') % FormatSql(sql)")], 'C10-R3')
+M('c10-literal-bypass', 'C10', [(ET, "      if 'the_string' in literal:\n        return self.StrLiteral(literal['the_string'])", "      if 'the_string' in literal:\n        return \"'%s'\" % literal['the_string']['the_string']")], 'C10-R2')
+T('c10-twin-duckdb-extra', 'C10', [(ET, "          .replace('\\n', r'\\n'))", "          .replace('\\n', r'\\n')\n          .replace('\\r', r'\\r'))")])
+T('c10-twin-standard-refactor', 'C10', [(ET, "      return '\\'%s\\'' % (literal['the_string'].replace(\"'\", \"''\"))", "      return \"'\" + literal['the_string'].replace(\"'\", \"''\") + \"'\"")])
